@@ -485,7 +485,7 @@ func replay(tier string, raw json.RawMessage) (bool, string, string) {
 func init() {
 	core.Register(&core.Prop{
 		ID: "C10", Variant: "plain", Shards: shards, Run: run, Replay: replay,
-		Rule: "for each of the 8 integer types, string length and decimal64 at the chosen fraction-digits: every restriction string with <= 2 parts (v or v..w) over a boundary grid (min, max, type bounds and +-1, 0, +-1 quantum, 2, -0, ...), 3 parts over a 6-value core grid, white-space layout variants and a syntactic-fault list; every depth-2 chain (accepted parent x child) and depth-3 chain over the core grid; run through typedef/leaf text + Process (Entry.Type.Range/Length) and through ParseRangesInt/ParseRangesDecimal, and compared with big.Int interval sets: accepted => exactly the written set, sorted/disjoint/coalesced, bounds at the type's fraction digits; syntactically invalid, out-of-order or wider-than-parent => error; RFC-valid and within the parent => accepted. states = distinct (type, chain); non-trivial = not rejected by the reference",
+		Rule:        "for each of the 8 integer types, string length and decimal64 at the chosen fraction-digits: every restriction string with <= 2 parts (v or v..w) over a boundary grid (min, max, type bounds and +-1, 0, +-1 quantum, 2, -0, ...), 3 parts over a 6-value core grid, white-space layout variants and a syntactic-fault list; every depth-2 chain (accepted parent x child) and depth-3 chain over the core grid; run through typedef/leaf text + Process (Entry.Type.Range/Length) and through ParseRangesInt/ParseRangesDecimal, and compared with big.Int interval sets: accepted => exactly the written set, sorted/disjoint/coalesced, bounds at the type's fraction digits; syntactically invalid, out-of-order or wider-than-parent => error; RFC-valid and within the parent => accepted. states = distinct (type, chain); non-trivial = not rejected by the reference",
 		Assumptions: []string{"boundary grids stand in for the numeric domains", "restrictions that RFC 7950 forbids only for their layout (unsorted or overlapping parts) may be accepted or rejected, but must denote the written set when accepted", "hexadecimal/octal notations, which the library documents as accepted, are not generated"},
 	})
 }
